@@ -202,6 +202,8 @@ class Unit:
                 lift.expand_files[mname] = mfile
             elif d == 'pub-fields':
                 lift.pub_fields = True
+            elif d == 'fmt-shim':
+                lift.fmt_shim = True
             elif d == 'no-canary':
                 lift.no_canary = True
             elif d == 'derive':
